@@ -207,4 +207,34 @@ example :
     (runEv s (.call 2 [.call 3 [.call 2 [] false (.ok 5)] false (.ok 6)] false (.ok 7))).2 = .circular := by decide
 end Generators
 
+/-! ## Repair and retry: what the runner does *not* guarantee (the recorded finding, exhibited in the model)
+
+The designer may replace an instance of a module that is not elaborated yet: the model of that edit is another `children`
+function. The `done` sets do not know about it. -/
+
+/-- **A parent a pass has completed on hides a new child from that pass.** After the edit (`sys'` instead of `sys`: the module
+    `m` now instantiates `c`), visiting `m` with pass `k` — done on `m`, not on `c` — completes at once and leaves `c`
+    unvisited: whatever pass `k` would have established about `c` (its references resolved, its bundles flattened) is missing when
+    the later passes, not yet done on `m`, descend into it. This is `revisit_is_noop` read as a defect; the implementation shows it
+    as the known finding `repair:<fault>/<repair>` (a spurious refusal, never a wrong package). -/
+theorem done_parent_hides_new_child (sys' : Sys S) (k fuel : Nat) (st : RState S) (m c : Nat)
+    (hd : st.done k m = true) (hf : st.failed m = false) (_hnew : c ∈ sys'.children m) (hc : st.done k c = false) :
+    (visit sys' k (fuel + 1) st m).2 = true ∧ (visit sys' k (fuel + 1) st m).1.done k c = false := by
+  rw [revisit_is_noop sys' k fuel st m hd hf]
+  exact ⟨rfl, hc⟩
+
+/-- The witness, run: modules 0 (bad: pass 1 raises on it), 1 (the parent), 2 (healthy). First call: pass 0 completes on 0 and 1,
+    pass 1 fails on 0. The designer makes 1 instantiate 2 instead of 0. Second call: pass 0 is done on the parent and never runs
+    on module 2; pass 1 then meets module 2 in a state pass 0 has not prepared (here: it raises on every module of state 0). -/
+example :
+    let sys  : Sys Nat := ⟨fun m => if m = 1 then [0] else [], fun k σ m => if k = 0 then some 1 else if σ m = 0 ∨ m = 0 then none else some 2⟩
+    let sys' : Sys Nat := { sys with children := fun m => if m = 1 then [2] else [] }
+    let init : RState Nat := ⟨fun _ => 0, fun _ _ => false, fun _ => false⟩
+    let st1 := elaborate sys 2 5 [1] init
+    let st2 := elaborate sys' 2 5 [1] st1.1
+    st1.2 = false ∧ st1.1.done 0 1 = true ∧ st1.1.failed 1 = false ∧       -- the first call fails below the parent, which pass 0 completed on
+    st2.2 = false ∧ st2.1.done 0 2 = false ∧ st2.1.failed 2 = true ∧        -- the repaired design is refused: pass 0 never saw module 2
+    (elaborate sys' 2 5 [1] init).2 = true := by                            -- which a fresh process elaborates
+  decide
+
 end Hdl21.Props.C08
